@@ -788,7 +788,30 @@ class RoundTrip(Suite):
         return Info(has_list or escaped, labels)
 
 
-SUITES = [EnumShort(), RandomLong(), TypedGetters(), RoundTrip()]
+class FuzzQuery(Suite):
+    """Coverage-guided (Atheris) search: raw bytes decoded as UTF-8 (invalid sequences -> U+FFFD) into one query string,
+    judged by the same oracle as enum_short (all 4 option combinations, function + WSGI + ASGI requests); falcon's parser
+    and decoder are instrumented for coverage feedback."""
+
+    name = 'fuzz_query'
+    budget = {'quick': 0, 'thorough': 0}
+    fuzz_runs = {'quick': 8000, 'thorough': 600000}
+    fuzz_shards = {'quick': 4, 'thorough': 12}
+    fuzz_max_len = 160
+
+    def fuzz_corpus(self):
+        return [b'a=1&b=2,3&a=%C3%A9', b'a=,&b=&c', b'%61=%2C,+x&&=', b'q=' + b'%41' * 9]
+
+    def fuzz_decode(self, data):
+        return {'s': data.decode('utf-8', 'replace')}
+
+    def run(self, case):
+        s = case['s']
+        extra = check_parse(s)
+        return parse_info(s, sorted(extra))
+
+
+SUITES = [EnumShort(), RandomLong(), TypedGetters(), RoundTrip(), FuzzQuery()]
 
 
 def _known_f7(suite_name, case, violation):
